@@ -16,8 +16,12 @@ var leftmostFirstSpanMethods = map[string]bool{"SearchAt": true, "Find": true, "
 
 // longestExempt: functions whose leftmost-first span is also the leftmost-longest one, with the reason.
 var longestExempt = map[string]string{
+	"(*meta.Engine).findAdaptive":        adaptiveWhy,
+	"(*meta.Engine).findIndicesAdaptive": adaptiveWhy,
 	"(*meta.Engine).findIndicesBidirectionalDFALongest": "only reached from the UseBoundedBacktracker helpers when the input is too large; that strategy is selected for start-anchored patterns (answered by the PikeVM before this call) and for repetitions of a single character class, whose greedy match is the longest one",
 }
+
+const adaptiveWhy = "the FindMatch shortcut of the adaptive (UseBoth) helpers is unreachable: selectStrategy returns UseBoth only after the literal analysis found neither good nor Teddy literals (both lead to UseDFA/UseNFA/UseTeddy earlier), so e.prefilter is never a whole-match finder under this strategy; no pattern reaching it could be constructed"
 
 // spanReachesResult: the value of call c reaches a return operand of fn through arithmetic, phis, tuples and
 // package-level constructors (NewMatch), not through another engine's search (a method call), and not only through comparisons.
@@ -227,7 +231,7 @@ func notLongestBlocks(fn *ssa.Function) func(b *ssa.BasicBlock) bool {
 func init() {
 	core.Register(&core.Rule{
 		Name: "R-LONGEST",
-		Doc: "Leftmost-first automata are consulted for a span only in leftmost-first mode: in package meta, every call of a span-returning method of the forward lazy DFA (SearchAt, Find, FindAt, SearchAtAnchored, SearchFirstAt on the Engine's dfa field) sits in code that is only reached when e.longest is false - either the call is dominated by such a test in the same function, or every call site of the function inside the package is (transitively). Boolean calls (IsMatch*) are exempt: whether a match exists does not depend on the mode. The forward DFA is built with break-at-match priority, so its match end is the leftmost-first one; a path that uses it without looking at the mode returns the same span in both modes and is wrong in one of them (distinguishability). Necessary for C10 (every API honours Longest) and C11.",
+		Doc: "Leftmost-first automata are consulted for a span only in leftmost-first mode: in package meta, every call of a span-returning method of the forward lazy DFA (SearchAt, Find, FindAt, SearchAtAnchored, SearchFirstAt on the Engine's dfa field) sits in code that is only reached when e.longest is false - either the call is dominated by such a test in the same function, or every call site of the function inside the package is (transitively). The same holds for the literal engines that report the first alternative matching at a position: FindMatch of a complete literal prefilter reached through e.prefilter (Teddy) and Find/FindAt of e.ahoCorasick. Boolean calls (IsMatch*) are exempt: whether a match exists does not depend on the mode. The forward DFA is built with break-at-match priority, so its match end is the leftmost-first one; a path that uses it without looking at the mode returns the same span in both modes and is wrong in one of them (distinguishability). Necessary for C10 (every API honours Longest) and C11.",
 		Min: 15, NeedSSA: true,
 		Run: func(p *core.Prog) *core.RuleResult {
 			res := &core.RuleResult{}
@@ -287,18 +291,37 @@ func init() {
 							continue
 						}
 						cal := c.Call.StaticCallee()
-						if cal == nil || cal.Signature.Recv() == nil || !leftmostFirstSpanMethods[cal.Name()] {
+						calName := ""
+						switch {
+						case cal != nil && cal.Signature.Recv() != nil && leftmostFirstSpanMethods[cal.Name()] && ownPkg(cal) != nil && strings.HasSuffix(ownPkg(cal).Path(), "/dfa/lazy"):
+							// receiver is the Engine's forward dfa field
+							if f := innerField(c.Call.Args[0]); f != nil && f.Name() == "dfa" {
+								calName = cal.Name()
+							}
+						case cal != nil && cal.Signature.Recv() != nil && (cal.Name() == "Find" || cal.Name() == "FindAt") && len(c.Call.Args) > 0:
+							// the Aho-Corasick literal engine (first alternative wins)
+							if f := innerField(c.Call.Args[0]); f != nil && f.Name() == "ahoCorasick" {
+								calName = "ahoCorasick." + cal.Name()
+							}
+						case c.Call.IsInvoke() && c.Call.Method.Name() == "FindMatch":
+							// a literal prefilter that returns whole matches of varying length (Teddy), reached through e.prefilter
+							v := c.Call.Value
+							if ta, ok := v.(*ssa.TypeAssert); ok {
+								v = ta.X
+							}
+							if ex, ok := v.(*ssa.Extract); ok {
+								if ta, ok := ex.Tuple.(*ssa.TypeAssert); ok {
+									v = ta.X
+								}
+							}
+							if f := innerField(v); f != nil && f.Name() == "prefilter" {
+								calName = "prefilter.FindMatch"
+							}
+						}
+						if calName == "" {
 							continue
 						}
-						if cpk := ownPkg(cal); cpk == nil || !strings.HasSuffix(cpk.Path(), "/dfa/lazy") {
-							continue
-						}
-						// receiver is the Engine's forward dfa field
-						f := innerField(c.Call.Args[0])
-						if f == nil || f.Name() != "dfa" {
-							continue
-						}
-						o := core.Obligation{Key: kc.Key("R-LONGEST", core.FuncName(fn), "span from leftmost-first "+cal.Name()), Pos: p.Pos(c.Pos()), Nontrivial: true}
+						o := core.Obligation{Key: kc.Key("R-LONGEST", core.FuncName(fn), "span from leftmost-first "+calName), Pos: p.Pos(c.Pos()), Nontrivial: true}
 						if !spanReachesResult(fn, c) {
 							o.Status = core.Discharged
 							o.Detail = "the DFA's match end is only tested for existence or used as a position hint for another engine; it does not reach the function's result"
